@@ -1,18 +1,18 @@
 SPECIFICATION Spec
 CONSTANTS
-  Mode = "enum"
-  MaxLen = 2
+  Mode = "mc"
+  MaxLen = 3
   MaxPool = 1
   MaxSize = 64
   Raise = FALSE
   Devs = {"EnumFirstZeroUnsigned", "UnnamedNoAlign", "UnionUnnamedIgnored", "PackedNoFinalAlign"}
-  Widths = {}
+  Widths = {3, 33}
   Emit = TRUE
-  CharSigned = FALSE
-  EUSuffixed = {0, 1, 63, 64, 127, 128, 2047, 2048, 4095}
+  CharSigned = TRUE
+  EUSuffixed = {}
   GenClasses = {"scalar", "array", "bitfield", "nested", "anon", "alignas", "flex"}
   GenPacked = TRUE
-  McSel = "full"
+  McSel = "scan"
   CheckSim = FALSE
-INVARIANTS Inv_EnumRefine Inv_EmitEnum
+INVARIANTS Inv_EmitTerm
 CHECK_DEADLOCK FALSE
